@@ -14,7 +14,7 @@ def run(tier, seed):
     for kind in range(5):
         for m in ((0, 1, 200) if thorough else (1, 200)):
             cases.append(Case('args_h%d_m%d' % (kind, m), 'hash', 'zzC19_args', [kind, m], opts=HS))
-    for op in range(7):
+    for op in range(8):
         cases.append(Case('bls_op%d' % op, 'crypto', 'zzC19_bls', [op], opts={'setup': 'symex.setup_c:with_galg'}))
     for w in (0, 1, 2):
         cases.append(Case('decoders_%d' % w, 'crypto', 'zzC19_decoders', [w], opts={'setup': 'symex.setup_c:with_c'}))
